@@ -146,7 +146,7 @@ func (vc *VC) effectsOfNode(eff *Effects, pkg *Pkg, n ast.Node, s tsubst, visiti
 	_ = readExpr
 	ast.Inspect(n, func(n ast.Node) bool {
 		if vc.pruneTerminal {
-			if b, ok := n.(*ast.BlockStmt); ok && endsInReturn(b, info) {
+			if b, ok := n.(*ast.BlockStmt); ok && (endsInReturn(b, info) || vc.skipBlocks[b]) {
 				return false
 			}
 		}
@@ -537,4 +537,53 @@ func endsInReturn(b *ast.BlockStmt, info *types.Info) bool {
 		}
 	}
 	return false
+}
+
+// terminalBlocks marks the blocks of a loop body that leave the loop for good:
+// blocks ending in return/panic anywhere, and blocks ending in an unlabelled
+// break that targets this loop (not nested in an inner loop/switch/select).
+func terminalBlocks(body *ast.BlockStmt, info *types.Info) map[*ast.BlockStmt]bool {
+	out := map[*ast.BlockStmt]bool{}
+	var walkStmt func(s ast.Stmt, direct bool)
+	walkBlock := func(b *ast.BlockStmt, direct bool) {
+		if b == nil {
+			return
+		}
+		if len(b.List) > 0 && direct {
+			if br, ok := b.List[len(b.List)-1].(*ast.BranchStmt); ok && br.Tok == token.BREAK && br.Label == nil {
+				out[b] = true
+			}
+		}
+		for _, s := range b.List {
+			walkStmt(s, direct)
+		}
+	}
+	walkStmt = func(s ast.Stmt, direct bool) {
+		switch t := s.(type) {
+		case *ast.BlockStmt:
+			walkBlock(t, direct)
+		case *ast.IfStmt:
+			walkBlock(t.Body, direct)
+			if t.Else != nil {
+				walkStmt(t.Else, direct)
+			}
+		case *ast.ForStmt:
+			walkBlock(t.Body, false)
+		case *ast.RangeStmt:
+			walkBlock(t.Body, false)
+		case *ast.SwitchStmt:
+			for _, c := range t.Body.List {
+				for _, s2 := range c.(*ast.CaseClause).Body {
+					walkStmt(s2, false)
+				}
+			}
+		case *ast.LabeledStmt:
+			walkStmt(t.Stmt, direct)
+		}
+	}
+	// the loop body itself is not terminal, only nested blocks
+	for _, s := range body.List {
+		walkStmt(s, true)
+	}
+	return out
 }
